@@ -214,7 +214,7 @@ class C15(core.Check):
     nshards_quick = 16
     nshards_thorough = 64
     budget_quick = 900
-    budget_thorough = 3000
+    budget_thorough = 6000
 
     def setup(self, tier):
         self.tmp = tempfile.mkdtemp(prefix='yvm_c15_')
